@@ -18,6 +18,9 @@ mod sender;
 mod stats;
 mod subscriptions;
 mod toml_config;
+#[cfg(feature = "verif-hooks")]
+#[allow(dead_code)]
+mod verif_hooks;
 
 // Test helpers for binary tests
 #[cfg(any(test, feature = "test-internals"))]
